@@ -130,7 +130,7 @@ OrderIndependent == track \in {"pattern", "values"} => CodePath(in, <<1, 2>>) = 
 QueryHolds == track = "query" => ValuesOK(in, CodeQuery(in))
 
 SchemeHolds == track = "scheme" =>
-  LET h == Append(in.hist, in.os) IN \A i \in 1..Len(h) : SchemeOK(in.rs, h[i], CodeSchemeAt(in.rs, h, i))
+  LET h == Append(in.hist, in.os) IN \A i \in 1..Len(h) : \A e \in Entries : SchemeOK(in.rs, h[i], CodeSchemeVia(e, in.rs, h, i))
 
 \* the decoder used on real traces is the inverse of the encoder (sanity of the oracle itself)
 RECURSIVE EncodePairs(_)
